@@ -4,14 +4,16 @@
   proofs          Properties_C06.v (thread ranges tile, merge order irrelevant, error = mean per-element loss for every
                   schedule/batching, equal weights = unweighted, chain rule through weightedParameterDerivative, regularizer
                   terms, loss table: both code paths agree / batch = sum / gradient), axiom-free over Q
-  correspondence  extracted model (exact Q arithmetic; cross-entropy: float instantiation) vs harness/c06_loss.cpp compiled from
+  correspondence  extracted model (exact Q arithmetic; on real data the float instantiation of the Section-polymorphic
+                  cross-entropy (both label encodings), HuberLoss and AbsoluteLoss at 1e-12) vs harness/c06_loss.cpp compiled from
                   /repo on the same case lines: regularizers (G), the 10 loss classes on one batch through batch and
                   single-element entry points (L), AbstractLoss::eval(Data,Data) (M), ErrorFunction plain / weighted /
-                  regularised / mini-batch with a LinearModel for thread counts 1,2,3,16 and several partitions (E, W, R, B).
+                  regularised / mini-batch with a LinearModel for thread counts 1,2,3,16 and several partitions (E, W, R, B),
+                  ErrorFunction with LinearModel >> LinearModel (bilinear in the parameters; N), ZeroOneLoss weighted eval (Z).
                   Exact on dyadic data (the implementation's double must be the model's rational, or its correctly rounded
                   value when a division by a non power of two is involved; Huber's outer branch: 1e-15).
   spec monitors   evaluated on the implementation's output only, on all anchored classes incl. those without Coq model
-                  (CrossEntropy on probability labels, NegativeAUC, ZeroOneLoss weighted eval, non-linear models):
+                  (NegativeAUC, models with non-linear activations):
                   derivative-call value = eval value, batch = sum of single-element calls, batch gradient rows = single-element
                   gradients, dataset error = mean of brute-force per-element losses, invariance under re-batching and thread
                   count, equal weights = unweighted, weighted = sum w l / sum w, regularizer adds factor*term exactly, mini-batch
@@ -235,6 +237,26 @@ def gen_ef_case(rng, exact=True):
         lines.append("F %s %s %d %d %d %s | %s | %s | %s" % (name, param, rng.choice(THREADS), nin, nout, mt, P(), body, " ".join(float(rng.uniform(0.1, 3)).hex() for _ in range(n))))
     return lines
 
+def gen_net2_case(rng):
+    """ErrorFunction on LinearModel(nin,nh) >> LinearModel(nh,nout), both with offset: exact, several partitions / thread counts"""
+    name = rng.choice(TABLE)
+    nin = rng.choice([1, 2, 3]); nh = rng.choice([1, 2, 3]); nout = rng.choice([1, 2, 3])
+    n = rng.choice([1, 2, 3, 4, 6])
+    param = "0"
+    if name in ("eps", "sqeps"): param = fq(rng.choice([0, Fraction(1, 2), 1]))
+    if name == "huber": param = "1024"
+    params = [fq(dyq(rng, -2, 2, (1, 2))) for _ in range(nin * nh + nh + nh * nout + nout)]
+    ins = [fq(rng.choice([Fraction(rng.randint(-3, 3)), dyq(rng, -2, 2, (2,))])) for _ in range(n * nin)]
+    if name in VV: labs = [fq(dyq(rng, -3, 3)) for _ in range(n * nout)]
+    else:
+        labs = [str(rng.randint(0, 1) if nout == 1 else rng.randrange(nout)) for _ in range(n)]
+        if name == "sqc" and nout == 1: labs = ["0"] * n
+    body = "%s | %s | %s" % (" ".join(params), " ".join(ins), " ".join(labs))
+    lines = ["N %s %s 1 %d %d %d | %d | %s" % (name, param, nin, nh, nout, n, body)]
+    for _ in range(rng.randint(2, 3)):
+        lines.append("N %s %s %d %d %d %d | %s | %s" % (name, param, rng.choice(THREADS), nin, nh, nout, " ".join(map(str, partition(rng, n))), body))
+    return lines
+
 def gen_reg_case(rng):
     n = rng.randint(1, 6)
     x = [rng.choice([Fraction(0), dyq(rng, -3, 3)]) for _ in range(n)]
@@ -271,6 +293,7 @@ def shape(line):
     s = sections(line); hd = s[0]
     if hd[0] in ("L", "D"): return "%s dim=%s n=%d" % (NAMES.get(hd[1], hd[1]), hd[3], len(s[1]) if hd[1] not in VV else len(s[1]) // max(1, int(hd[3])))
     if hd[0] == "M": return "%s dim=%s threads=%s batches=%s" % (NAMES.get(hd[1], hd[1]), hd[3], hd[4], ",".join(s[1]))
+    if hd[0] == "N": return "%s threads=%s LinearModel(%s,%s)>>LinearModel(%s,%s) batches=%s" % (NAMES.get(hd[1], hd[1]), hd[3], hd[4], hd[5], hd[5], hd[6], ",".join(s[1]))
     if hd[0] in ("E", "W", "R", "F", "B"): return "%s threads/seed=%s nin=%s nout=%s%s batches=%s" % (NAMES.get(hd[1], hd[1]), hd[3], hd[4], hd[5], (" " + " ".join(hd[6:])) if len(hd) > 6 else "", ",".join(s[1]))
     return " ".join(hd)
 
@@ -374,7 +397,7 @@ def mon_case(lines, outs):
                     except (OverflowError, ValueError): pass
                 if not (m == want if exact else close(m, want, msc, RTOL)):
                     bad.append("M:%s:dataset-mean| AbstractLoss::eval(Data,Data) %s = %r, but (loss on all elements)/n = %r" % (hd[1], shape(line), m, want))
-        elif k in ("E", "W", "R", "F"):
+        elif k in ("E", "W", "R", "F", "N"):
             v, dv, g = fh(d["v"]), fh(d["dv"]), fhl(d["g"]); el = fhl(d["el"]); n = len(el)
             weights = [pq(x) for x in s[5]] if (k == "W" or (k == "F" and len(s) > 5)) else None
             name = hd[1]
@@ -551,6 +574,7 @@ def main():
         cases += [gen_loss_case(rng, False) for _ in range(300 * k)]
         cases += [gen_ef_case(rng, True) for _ in range(350 * k)]
         cases += [gen_ef_case(rng, False) for _ in range(200 * k)]
+        cases += [gen_net2_case(rng) for _ in range(150 * k)]
         cases += [gen_reg_case(rng) for _ in range(100 * k)]
         cases += [gen_auc_case(rng) for _ in range(100 * k)]
         zcases += [gen_zw_case(rng) for _ in range(100 * k)]
@@ -562,6 +586,7 @@ def main():
             for _ in range(150):
                 if k0 == "L": out.append(gen_loss_case(rng, True))
                 elif k0 in "EWRB": out.append(gen_ef_case(rng, True))
+                elif k0 == "N": out.append(gen_net2_case(rng))
                 elif k0 == "G": out.append(gen_reg_case(rng))
                 else: out.append(gen_loss_case(rng, False))
         return out
@@ -626,11 +651,13 @@ def main():
               "" if not (ndis or nmon) else "%d monitor failures, %d disagreements" % (nmon, ndis))
     ck.notes["disagreements"] = ndis; ck.notes["monitor_failures"] = nmon
 
-    # ---------------- ZeroOneLoss weighted eval (no Coq model; spec monitor only)
+    # ---------------- ZeroOneLoss weighted eval: model zow_eval (exact; the implementation must return the correctly rounded quotient) + spec monitor
     zo = run_cases(exe, zcases, os.path.join(tmpd, "z_in.txt"), env=OMPENV) if zcases else []
-    zfail = 0; zknown = 0; seen = set()
-    for c, (o, rc, e) in zip(zcases, zo):
+    zm = run_cases(model, zcases, os.path.join(tmpd, "z_model_in.txt")) if zcases else []
+    zfail = 0; zknown = 0; seen = set(); zdis = []
+    for ci, (c, (o, rc, e)) in enumerate(zip(zcases, zo)):
         msgs = [("Z:crash", "implementation crashed on `%s`" % c[0])] if rc != 0 or len(o) != 1 else mon_Z(c[0], o[0])
+        if not msgs and not (zm[ci][1] == 0 and len(zm[ci][0]) == 1 and line_equal(c[0], zm[ci][0][0], o[0])): zdis.append(ci)
         for key, msg in msgs[:1]:
             if ck.match_known(key) is None: zfail += 1
             else: zknown += 1
@@ -639,8 +666,14 @@ def main():
                 cf = ck.write_replay("z_%s.txt" % key.split(":")[1], c[0] + "\n")
                 ck.violation(key, {"case_file": cf, "case": c, "implementation_output": o, "monitor": msg, "replay_cmd": "python3 tools/c06.py --replay %s" % cf},
                              "spec monitor fails on the implementation: " + msg)
-    ck.oblige("ZeroOneLoss<unsigned int,RealVector>::eval(Data,Data,weights) = weighted mean of the per-element errors on %d cases" % len(zcases), zfail == 0,
-              "" if zfail == 0 else "%d cases fail" % zfail)
+    if zdis and not zfail:
+        ci = zdis[0]; c = zcases[ci]
+        cf = ck.write_replay("z_corr_%d.txt" % ci, c[0] + "\n")
+        ck.violation("correspondence", {"case_file": cf, "case": c, "model_output": zm[ci][0], "implementation_output": zo[ci][0], "broken": "correspondence C06Model.zow_eval vs /repo",
+                                        "replay_cmd": "python3 tools/c06.py --replay %s" % cf},
+                     "correspondence C06Model.zow_eval vs ZeroOneLoss::eval(Data,Data,weights) no longer checks (outputs differ on %d cases, first: `%s`: model %s, implementation %s); the spec monitor passes" % (len(zdis), c[0], zm[ci][0], zo[ci][0]), no_input=True)
+    ck.oblige("ZeroOneLoss<unsigned int,RealVector>::eval(Data,Data,weights) = C06Model.zow_eval = weighted mean of the per-element errors on %d cases" % len(zcases), zfail == 0 and not zdis,
+              "" if zfail == 0 and not zdis else "%d cases fail the monitor, %d disagree with the model" % (zfail, len(zdis)))
     ck.notes["failures_matching_known_findings"] = zknown
 
     # ---------------- coverage
@@ -651,7 +684,7 @@ def main():
     def nontrivial(l):
         s = sections(l)
         if l[0] in "LDM": return len(s[2] if l[0] != "M" else s[3]) >= 2
-        if l[0] in "EWRFB": return len(s[3]) // max(1, int(s[0][4])) >= 2
+        if l[0] in "EWRFBN": return len(s[3]) // max(1, int(s[0][4])) >= 2
         return len(s[-1]) >= 2
     ck.cov["evaluations"] = len(flat)
     ck.cov["distinct_nontrivial"] = len(set(l for l in flat if nontrivial(l)))
